@@ -21,7 +21,32 @@
 #define nearbyint(a) _mm_cvtsd_si64(_mm_set_sd(a)) /* Note: expression type is (int64_t) */
 #endif
 
+#ifdef CLIPPER2_VERIF
+#include <cstdio>
+#include <cstdlib>
+#endif
+
 namespace Clipper2Lib {
+
+#ifdef CLIPPER2_VERIF
+  // verification hooks (off unless CLIPPER2_VERIF is defined): report an internal
+  // invariant failure on stderr and abort, so a monitor sees it deterministically
+  [[noreturn]] static void verif_fail(const char* what)
+  {
+    fprintf(stderr, "VERIF-HOOK %s\n", what);
+    fflush(stderr);
+    abort();
+  }
+
+  // H2: the active edge list must be a consistent doubly linked list
+  static void verif_check_ael(const Active* actives)
+  {
+    if (actives && actives->prev_in_ael) verif_fail("ael_head_has_prev");
+    for (const Active* e = actives; e; e = e->next_in_ael)
+      if (e->next_in_ael && e->next_in_ael->prev_in_ael != e)
+        verif_fail("ael_links_inconsistent");
+  }
+#endif
 
   static const Rect64 invalid_rect = Rect64(false);
 
@@ -2138,6 +2163,9 @@ namespace Clipper2Lib {
 
     while (succeeded_)
     {
+#ifdef CLIPPER2_VERIF
+      verif_check_ael(actives_);
+#endif
       InsertLocalMinimaIntoAEL(y);
       Active* e;
       while (PopHorz(e)) DoHorizontal(*e);
@@ -2150,6 +2178,9 @@ namespace Clipper2Lib {
       if (!PopScanline(y)) break;  // y new top of scanbeam
       DoIntersections(y);
       DoTopOfScanbeam(y);
+#ifdef CLIPPER2_VERIF
+      verif_check_ael(actives_);
+#endif
       while (PopHorz(e)) DoHorizontal(*e);
     }
     if (succeeded_) ProcessHorzJoins();
@@ -2465,6 +2496,12 @@ namespace Clipper2Lib {
       if (!EdgesAdjacentInAEL(*node_iter))
       {
         node_iter2 = node_iter + 1;
+#ifdef CLIPPER2_VERIF
+        // H1: the adjacent-node scan must stay inside intersect_nodes_
+        while (node_iter2 != intersect_nodes_.end() &&
+          !EdgesAdjacentInAEL(*node_iter2)) ++node_iter2;
+        if (node_iter2 == intersect_nodes_.end()) verif_fail("pil_scan_overrun");
+#endif
         while (!EdgesAdjacentInAEL(*node_iter2)) ++node_iter2;
         std::swap(*node_iter, *node_iter2);
       }
